@@ -149,6 +149,10 @@ func (f *Family) spec(pos int, s Shape) *pki.Cert {
 		}
 	} else {
 		c = pki.CASpec(f.keys[pos], f.cn(pos))
+		// every CA of every family carries the SAME subject key identifier (the
+		// bytes are the issuer's choice): whatever is remembered about "the CA
+		// with this identifier" is remembered about all of them
+		c.SKI = []byte("sims-shared-ca-key-id")
 		if s.NoCRLSign {
 			c.KU = x509.KeyUsageCertSign
 		}
